@@ -63,7 +63,7 @@ checks = {
  "C18": dict(
    text="main.main/getIO/parse are executed symbolically under a nondeterministic environment: flags are symbolic booleans, every open/read/parse/compile/flush/close outcome is a fresh symbolic boolean, "
         "so every combination of faults is explored; exit status 0 must imply no fault, the requested source and destination, a truncating open and the options reaching the generator. Sampled paths and every counterexample are re-run with the REAL binary in a matching real environment.",
-   note=NOTE_COMMON + "The front end and Compile are fault points here; that Compile returns nil only after the whole formatted parser was accepted by the destination writer is checked separately by running the real Compile into a writer that may reject any write (entry CompileWrites). Environment facts (missing input, not a regular file, newer destination) are symbolic choices distinct from faults. Flag parsing is stubbed.",
+   note=NOTE_COMMON + "The front end and Compile are fault points here; that Compile returns nil only after the whole formatted parser was accepted by the destination writer is checked separately by running the real Compile into a writer that may reject any write (entry CompileWrites). The error the Compile stub returns is class-opaque: errors.As / errors.Is on it fork on a symbolic choice, so a main that lets some class of Compile errors through to exit 0 is explored; such a path is reported only after one of three concrete realisations of the compile fault (action not Go; the same in a warned grammar; warned grammar with a destination that rejects writes) reproduced it with the real binary. Environment facts (missing input, not a regular file, newer destination) are symbolic choices distinct from faults. Flag parsing is stubbed.",
    design="DESIGN.md 4/C18"),
 }
 NA = {
